@@ -3,6 +3,31 @@
 import json, subprocess, os
 
 CHECKS = {
+ "C01": dict(level="fault_enumeration", engine="simdisk",
+   technique="exhaustive crash-image enumeration (I/O boundaries x lost-write subsets x header tear offsets) over histories selected from an explicit-state BFS of the real implementation",
+   text="For one representative history per distinct I/O shape found by a BFS over transaction histories: every I/O boundary of the last operation, every subset of the un-synced page writes/truncates (all 2^p up to a cap), and every byte-prefix tear of a pending header write. Each image is reopened through the normal open path; the recovered header txid must be the last successful commit (or the commit in flight), root and every live page must match that transaction's model state byte for byte, and two probe transactions (allocate/write/commit; overwrite/free/allocate/commit/reopen) must leave every other recovered page unchanged.",
+   note="Page-granular persistence except the 84-byte header; SyncNone excluded; crash points start after the file has been created; a write is durable once a later Sync completed. One history per I/O shape (shape = op kinds, target classes, pending-set size, coarse state features), not every history.",
+   ref="5/C01"),
+ "C04": dict(level="model_checking",
+   technique="explicit-state BFS over allocation histories of the real implementation with an ownership oracle on every returned page id, plus an allocate-everything sweep in every reached state",
+   text="BFS over begin(+overflow)/Alloc/AllocN(2|7|avail|avail+1)/overwrite/free(first|middle|last|every other)/alloc-then-free-new/flush/commit/rollback/reopen histories on bounded and unbounded files. Every id returned by Alloc/AllocN is checked against the reference model (not live, not freed-committed, not allocated-unfreed, not an internal page per hook snapshot, distinct, >= 2); in every reached state a twin run allocates everything that is allocatable, writes it, commits and re-verifies every live page's self-identifying pattern.",
+   note="Depth-bounded; internal pages are taken from the library's own bookkeeping (hook snapshot), live pages from the independent model.",
+   ref="5/C04"),
+ "C07": dict(level="model_checking",
+   technique="explicit-state BFS with differential (twin) oracle: state after an aborted transaction vs. state before it began",
+   text="For every Rollback/Close transition of the BFS graph (every aborted body the alphabet can build up to the depth bound, after every prefix history) the logical file (read state, free pages as sets, end markers, meta area, WAL mapping, stats, lock state) must equal that of the quiescent state where the transaction began; where the in-memory representation still differs, both twins are driven through a fixed set of continuations and must return identical ids, errors, bytes and logical states.",
+   note="Failed commits are covered by C08 (fault plans); depth-bounded.",
+   ref="5/C07"),
+ "C10": dict(level="model_checking",
+   technique="explicit-state BFS with differential (twin) oracle across close/reopen",
+   text="Reopen is an operation of the BFS alphabet at every quiescent state; the logical file before and after must be identical (root, page contents, free pages as sets, end markers, meta area, WAL mapping, FileStats), and instances whose in-memory representation differs are driven through continuations that must behave identically.",
+   note="Depth-bounded; wide encodings (multi-page free lists / mappings, 255+ regions) are covered by the wide-history pass.",
+   ref="5/C10"),
+ "C11": dict(level="model_checking",
+   technique="explicit-state BFS on bounded files with a capacity probe (allocate until failure on a twin) in every quiescent state",
+   text="On bounded configurations without overflow transactions, in every quiescent state of the BFS: pages that can really be allocated (probe transaction on a twin) + live pages (model) + meta area (FileStats) + 2 == maximum; FileStats (DataAllocated, MetaArea, MetaAllocated, MaxSize) equal reality and what the Observer was told; the simulated disk's maximum extent never exceeds the maximum size.",
+   note="Depth-bounded histories; bounded page alphabets.",
+   ref="5/C11"),
  "C03": dict(level="model_checking",
    technique="explicit-state BFS over operation histories of the real implementation vs. reference model, plus bounded schedule enumeration of the background writer",
    text="Breadth-first explicit-state search over every history of the page API alphabet (begin/alloc/write full|partial|load/free/flush/checkpoint/set-root/commit/rollback/reopen) up to a depth bound on several configurations, executed on the real (scheduler-instrumented) library over a simulated disk; after every transaction end and reopen a read transaction is compared byte-for-byte with a map-of-pages model, and inside the writing transaction every write is read back.",
